@@ -59,6 +59,8 @@ def run(F, R, ctx):
     c03.jit_move_rule(F, R, "C02.m")
     trampoline_decision_rule(F, R)
     installer_agreement_rule(F, R)
+    # the call-site inliners are optional optimisations: what they may replace is a configuration-independence clause too
+    c01.inline_count_rule(F, R)
 
 
 def _run(F, R, ctx):
